@@ -124,7 +124,8 @@ def rule_L_SKELETON(ctx, which=("lexical", "fold", "term"), floor=12):
         r = ref.get(name)
         site = "%s:%s" % (it["span"]["file"], it["span"]["line"])
         if r is None:
-            ctx.ob("L-SKELETON", name, False, "new function without a reviewed skeleton", site)
+            # a function added next to the reviewed ones is not evidence against the property (control: a new unrelated API); it is listed
+            ctx.extra.setdefault("unreviewed_new_functions", []).append(name)
             continue
         d = diff(r["skeleton"], s)
         ctx.ob("L-SKELETON", name, d is None, d or "", site)
